@@ -59,6 +59,23 @@ def random_slices(algo, seed, count, nsym, extra='', nmin=6, nmax=7, wmax=20):
     return out
 
 
+def dense_slices(algo, seed, count, nsym=2, extra=''):
+    """seeded dense graphs on 5..6 vertices (m >= 2n, so that a support vector can reach >= n signed edges and the per-vertex branch of the
+    signed searches runs) with bimodal fixed weights (light 1..9, heavy 40..80)"""
+    r = rng(shash((seed, algo, 'dense', nsym)))
+    out = []
+    while len(out) < count:
+        n = r.choice([5, 6])
+        m = min(r.randint(2 * n, 2 * n + 2), n * (n - 1) // 2)
+        es = sorted(r.sample(all_pairs(n), m))
+        if components(n, es) != 1:
+            continue
+        symidx = sorted(r.sample(range(m), nsym))
+        fixed = [r.randint(1, 9) if r.random() < 0.6 else r.randint(40, 80) for _ in range(m)]
+        out.append('algo=%s n=%d edges=%s sym=%s fixed=%s fam=dense%s' % (algo, n, edges_str(es), ','.join(map(str, symidx)), ','.join(map(str, fixed)), extra))
+    return out
+
+
 def exact_cases(tier, seed, algos=('signed', 'fvs', 'iso')):
     cases = []
     g4 = [(4, g) for g in all_labelled_graphs(4)]
@@ -99,6 +116,8 @@ def exact_cases(tier, seed, algos=('signed', 'fvs', 'iso')):
                     cases.append('algo=%s n=5 edges=%s sym=all perm=%s' % (algo, edges_str(g), ','.join(map(str, perm))))
         if tier == 'quick':
             cases += random_slices(algo, seed, 6, 2)
+        if algo == 'signed':
+            cases += dense_slices(algo, seed, 4 if tier == 'quick' else 10, 2)
         # a forest and an edgeless graph with several components
         cases.append('algo=%s n=5 edges=0-1,1-2,1-3,3-4 sym=all' % algo)
         cases.append('algo=%s n=5 edges=0-1,2-3 sym=all' % algo)
@@ -1335,8 +1354,10 @@ def tbb_cases(tier, seed):
     if tier == 'thorough':
         for algo in exact:
             cases += random_slices(algo, seed, 8 if 'iso' not in algo else 4, 2, extra=' lmax=3 cb=1')
+        cases += dense_slices('signed_tbb', seed, 10, 2, extra=' lmax=3 cb=1')
     else:
         cases += random_slices('signed_tbb', seed, 6, 2, extra=' lmax=3 cb=0')
+        cases += dense_slices('signed_tbb', seed, 4, 2, extra=' lmax=3 cb=1')
     cb = 2
     return [c if ' cb=' in c else c + ' cb=%d seed=%d' % (cb, seed) for c in cases]
 
@@ -1484,6 +1505,10 @@ def mpi_cases(tier, seed):
                     layouts = ['same', 'rev', 'sym']
                 for lay in layouts:
                     cases.append('algo=%s P=%d layout=%s n=%d edges=%s sym=%s seed=%d' % (algo, P, lay, n, edges_str(g), s, seed))
+    # dense graphs: the per-vertex split of mcb_sva_signed_mpi only runs when a support vector has at least n edges (never on 4 vertices)
+    for c in dense_slices('signed_mpi', seed, 3 if tier == 'quick' else 8, 1):
+        for P in (2, 3):
+            cases.append(c + ' P=%d layout=%s seed=%d' % (P, 'same' if P == 2 else 'rev', seed))
     if tier == 'thorough':
         for f, ns in [('K33', 2), ('K5', 2)]:
             for algo in algos:
